@@ -11,6 +11,7 @@ import z3
 
 from symx.core import Engine, SR, noprint
 from symx.arr import sarr
+from symx.npproxy import NPProxy
 from symx.models import FRot, FUniverse, FMerge, rotation_matrix_terms, models_selftest, real_universe
 from symx.prove import Prover
 from symx.runner import Acc
@@ -86,7 +87,7 @@ def run_pt(shape):
     names1, names2 = [f"A{i}" for i in range(n1)], [f"B{i}" for i in range(n2)]
 
     def body():
-        with bound(P, Rotation=FRot, Merge=FMerge, print=noprint):
+        with bound(P, Rotation=FRot, Merge=FMerge, print=noprint, np=NPProxy()):
             u1 = FUniverse(sarr([[SR(v) for v in r] for r in x1]), sarr([SR(m) for m in w1]), names1)
             u2 = FUniverse(sarr([[SR(v) for v in r] for r in x2]), sarr([SR(m) for m in w2]), names2)
             pt = P.Pseudotrajectory(u1, u2, sarr([[SR(v) for v in g] for g in grid]))
